@@ -235,3 +235,166 @@ Proof.
   split; [vm_compute; reflexivity|]. split; [vm_compute; reflexivity|].
   vm_compute. repeat split; reflexivity.
 Qed.
+
+(* ------------------------------------------------------------------------------------------------------------------
+   tableCompactionBuilder (model Lsm/Builder.v): the run loop with shouldStopBefore / needFlush / the drop rule, the
+   snapshot taken after a flush at a first-occurrence boundary, and compactionTransact's retries after transient
+   errors (fresh iterator, skip of snapIter entries, restore of the builder's and the compaction's snapshot, cleanup of
+   the partially written table).
+   ------------------------------------------------------------------------------------------------------------------ *)
+From GL Require Import Lsm.Builder Lsm.BuilderBase Lsm.BuilderProofs Lsm.BuilderCuts Lsm.BuilderShape Lsm.BuilderStep.
+
+(* Retry invariant: for EVERY input sequence (corrupted keys included, strict or not), every size function and limits, and
+   EVERY history of failing attempts (one oracle per attempt: iterator error at any position, table creation / append
+   error at any entry, flush error at any entry or at the end, failing cleanup), if compactionTransact returns normally
+   then the builder is in exactly the state in which a single failure-free run ends: the same list of finished tables
+   (entries of each table in order, recorded first/last key), the same dropCnt and kerrCnt.  No entry is processed twice
+   or skipped at a resume point. *)
+Theorem C06_builder_retry_invariant : forall c p sz gp maxgp deeper minSeq strict tableSize tsize items os s',
+  transact c p sz gp maxgp deeper minSeq strict tableSize tsize os items (bst0 deeper) = (s', TDone) ->
+  run_attempt c p sz gp maxgp deeper minSeq strict tableSize tsize o_ok items (bst0 deeper) = (s', ROk).
+Proof. exact retry_invariant. Qed.
+Print Assumptions C06_builder_retry_invariant.
+
+(* The failing attempts themselves: an attempt that ends with a corruption error (corrupted key under StrictCompaction;
+   compactionTransact then exits and reverts) ends exactly like the failure-free run, whatever failed before. *)
+Theorem C06_builder_corrupt_exit : forall c p sz gp maxgp deeper minSeq strict tableSize tsize items o s,
+  inv c p sz gp maxgp deeper minSeq strict tableSize tsize items s ->
+  snd (run_attempt c p sz gp maxgp deeper minSeq strict tableSize tsize o items s) = RCorrupt ->
+  run_attempt c p sz gp maxgp deeper minSeq strict tableSize tsize o items s =
+  run_attempt c p sz gp maxgp deeper minSeq strict tableSize tsize o_ok items (bst0 deeper).
+Proof. exact corrupt_exit_inv. Qed.
+Print Assumptions C06_builder_corrupt_exit.
+
+(* What the failure-free run — hence, by the retry invariant, every successful compactionTransact — writes for entries
+   whose keys parse, ordered by user key, when the levels below the output level are ordered and disjoint: the tables
+   concatenated are Compact.drop_run with the stateless base-level test (the function drop_rule_sound and
+   compaction_preserves are about; the cursors tPtrs answer like is_base), the CONCRETE cut rule — shouldStopBefore and
+   needFlush consulted only at the first occurrence of a user key — satisfies the abstract cuts_ok, kerrCnt = 0 and
+   dropCnt = number of dropped entries. *)
+Theorem C06_builder_good_run : forall c, comparer_ok c -> forall p sz gp maxgp deeper,
+  Forall (lvl_ok c p) deeper -> forall minSeq strict tableSize tsize es os s',
+  uk_sorted c es ->
+  transact c p sz gp maxgp deeper minSeq strict tableSize tsize os (map IGood es) (bst0 deeper) = (s', TDone) ->
+  out_items s' = map (map IGood) (fin s') /\
+  cuts_ok c (fin s') = true /\
+  concat (fin s') = drop_run c p minSeq (is_base c deeper) None es /\
+  kerr s' = 0 /\
+  drop s' + N.of_nat (length (drop_run c p minSeq (is_base c deeper) None es)) = N.of_nat (length es).
+Proof. exact transact_good. Qed.
+Print Assumptions C06_builder_good_run.
+
+(* The abstraction of C06_compaction_step discharged: for the compaction the model picker builds on a well-formed
+   version, the tables the builder has recorded when compactionTransact returns — after any transient failures — are
+   outputs in the sense of the step theorems (cuts_ok and concat = compact_entries), ... *)
+Theorem C06_builder_cuts_ok : forall c, comparer_ok c -> forall p, kparams_ok p -> forall sz v lvl limit seed,
+  wf_lsm c p v -> seed_ok v lvl seed ->
+  exists cm, new_compaction c sz v lvl limit seed = POk cm /\
+    forall gp maxgp minSeq strict tableSize tsize os s',
+      let deeper := skipn (lvl + 2) v in
+      let es := merge_inputs c (c_t0 cm ++ c_t1 cm) in
+      transact c p sz gp maxgp deeper minSeq strict tableSize tsize os (map IGood es) (bst0 deeper) = (s', TDone) ->
+      out_items s' = map (map IGood) (fin s') /\
+      outputs_of c p cm minSeq deeper (fin s') /\
+      kerr s' = 0 /\
+      drop s' + N.of_nat (length (compact_entries c p minSeq deeper (c_t0 cm ++ c_t1 cm))) = N.of_nat (length es).
+Proof. exact builder_outputs_of. Qed.
+Print Assumptions C06_builder_cuts_ok.
+
+(* ... so installing them keeps the invariant (also when level-0 tables were installed meanwhile). *)
+Theorem C06_builder_compaction_step : forall c, comparer_ok c -> forall p, kparams_ok p -> forall sz v lvl limit seed,
+  wf_lsm c p v -> seed_ok v lvl seed ->
+  exists cm, new_compaction c sz v lvl limit seed = POk cm /\
+    forall gp maxgp minSeq strict tableSize tsize os s' nums,
+      let deeper := skipn (lvl + 2) v in
+      transact c p sz gp maxgp deeper minSeq strict tableSize tsize os
+               (map IGood (merge_inputs c (c_t0 cm ++ c_t1 cm))) (bst0 deeper) = (s', TDone) ->
+      length nums = length (fin s') -> fresh_nums v nums ->
+      exists nv, finish c true v (compaction_edit cm (mk_outputs nums (fin s'))) = POk nv /\ wf_lsm c p nv.
+Proof. exact builder_compaction_step. Qed.
+Print Assumptions C06_builder_compaction_step.
+
+Theorem C06_builder_compaction_step_interleaved : forall c, comparer_ok c -> forall p, kparams_ok p ->
+  forall sz v lvl limit seed, wf_lsm c p v -> seed_ok v lvl seed ->
+  exists cm, new_compaction c sz v lvl limit seed = POk cm /\
+    forall v2 gp maxgp minSeq strict tableSize tsize os s' nums,
+      let deeper := skipn (lvl + 2) v in
+      later_version c p v v2 ->
+      transact c p sz gp maxgp deeper minSeq strict tableSize tsize os
+               (map IGood (merge_inputs c (c_t0 cm ++ c_t1 cm))) (bst0 deeper) = (s', TDone) ->
+      length nums = length (fin s') -> fresh_nums v2 nums ->
+      exists nv, finish c true v2 (compaction_edit cm (mk_outputs nums (fin s'))) = POk nv /\ wf_lsm c p nv.
+Proof. exact builder_compaction_step_interleaved. Qed.
+Print Assumptions C06_builder_compaction_step_interleaved.
+
+(* Every table the builder records — any input, any failure history, any way compactionTransact ends — is non-empty, its
+   recorded largest key is its last entry, its recorded smallest key its first entry with a non-empty key (for entries
+   whose keys parse: its first entry). *)
+Theorem C06_builder_outputs_shape : forall c p sz gp maxgp deeper minSeq strict tableSize tsize items os,
+  Forall shape_o (recs (fst (transact c p sz gp maxgp deeper minSeq strict tableSize tsize os items (bst0 deeper)))).
+Proof. exact outputs_shape. Qed.
+Print Assumptions C06_builder_outputs_shape.
+
+(* shouldStopBefore asked twice for the same key answers false the second time and changes nothing: the [resumed] flag of
+   run (which suppresses the call for the first entry after a resume) does not influence the result. *)
+Theorem C06_builder_resumed_flag_redundant : forall c sz gp maxgp x ik,
+  let x1 := snd (should_stop c sz gp maxgp x ik) in
+  should_stop c sz gp maxgp x1 ik = (false, x1).
+Proof. exact should_stop_idempotent. Qed.
+Print Assumptions C06_builder_resumed_flag_redundant.
+
+(* Likewise the restored hasLastUkey / lastUkey / lastSeq: the entry at which a resumed run starts is a first occurrence
+   whatever they are (the snapshot is taken at a first-occurrence boundary and the writer is gone), so a run resumed with
+   hasLastUkey = false performs the same iteration.  (Both facts explain why the two corresponding source changes are
+   equivalent mutants.) *)
+Theorem C06_builder_restored_last_key_redundant : forall c p sz gp maxgp deeper minSeq tableSize tsize o i e m u q,
+  tw m = None -> first_occ c m (e_uk e) = true ->
+  step_good c p sz gp maxgp deeper minSeq tableSize tsize o true i e (set_last m false u q) =
+  step_good c p sz gp maxgp deeper minSeq tableSize tsize o true i e m.
+Proof. exact resume_last_irrelevant. Qed.
+Print Assumptions C06_builder_restored_last_key_redundant.
+
+(* Non-vacuity: seven entries (user keys 1..5, minSeq 8: the tombstone 2@8 and the older 2@3 are dropped), tables are
+   full after two entries; six failing attempts — flush error at entry 2; append error at entry 4 after the snapshot at 2;
+   iterator error at position 1 while skipping; flush error at entry 6; error of the final flush; table creation error
+   at entry 6 with a failing cleanup before — then a clean one.  The result is the failure-free one: three tables
+   {1@9 1@7} {3@6 4@5} {5@4}, dropCnt 2. *)
+Definition bx_e (k s kind : N) : entry := {| e_uk := [k]; e_seq := s; e_kind := kind; e_val := [] |}.
+Definition bx_items : list item :=
+  map IGood [bx_e 1 9 1; bx_e 1 7 1; bx_e 2 8 0; bx_e 2 3 1; bx_e 3 6 1; bx_e 4 5 1; bx_e 5 4 1].
+Definition bx_o (nx : nat -> bool) (ap : nat -> afault) (fl : nat -> bool) (cl : bool) : oracle :=
+  {| o_closed := false; o_next := nx; o_append := ap; o_flush := fl; o_cleanup := cl; o_perr := false;
+     o_closed_sel := false |}.
+Definition bx_os : list oracle :=
+  [ bx_o (fun _ => false) (fun _ => AOk) (Nat.eqb 2) false;
+    bx_o (fun _ => false) (fun i => if Nat.eqb i 4 then AWrite else AOk) (fun _ => false) false;
+    bx_o (Nat.eqb 1) (fun _ => AOk) (fun _ => false) false;
+    bx_o (fun _ => false) (fun _ => AOk) (Nat.eqb 6) true;
+    bx_o (fun _ => false) (fun _ => AOk) (Nat.eqb 7) false;
+    bx_o (fun _ => false) (fun i => if Nat.eqb i 6 then ACreate else AOk) (fun _ => false) true;
+    o_ok ].
+Definition bx_size (l : list item) : N := 10 * N.of_nat (length l).
+
+Example C06_builder_nonvacuous :
+  exists s', transact bytewise kp (fun _ => 100) [] 1000 [] 8 true 20 bx_size bx_os bx_items (bst0 []) = (s', TDone) /\
+    out_items s' = [ map IGood [bx_e 1 9 1; bx_e 1 7 1]; map IGood [bx_e 3 6 1; bx_e 4 5 1]; map IGood [bx_e 5 4 1] ] /\
+    drop s' = 2 /\ kerr s' = 0 /\ sn_iter (snap s') = 6%nat /\
+    run_attempt bytewise kp (fun _ => 100) [] 1000 [] 8 true 20 bx_size o_ok bx_items (bst0 []) = (s', ROk) /\
+    cuts_ok bytewise (fin s') = true /\
+    (* the first six attempts do fail: with one oracle fewer the fuel runs out *)
+    snd (transact bytewise kp (fun _ => 100) [] 1000 [] 8 true 20 bx_size (firstn 6 bx_os) bx_items (bst0 [])) = TOutOfFuel.
+Proof. eexists. split; [vm_compute; reflexivity|]. vm_compute. repeat split; reflexivity. Qed.
+
+(* Outside the hypotheses of C06_builder_good_run — a corrupted key, StrictCompaction off: "Don't drop corrupted keys"
+   resets hasLastUkey, so the next entry of the SAME user key counts as a first occurrence and the table may be rotated
+   there.  Witness: 1@5, a key with user key 1 and an invalid kind, 1@3, tables full after one entry: user key 1 ends up in
+   two tables of one level (and 1@3 is not dropped although 1@5 is newer and minSeq = 9).  With StrictCompaction (the
+   default) the same input makes compactionTransact exit with nothing installed. *)
+Example C06_builder_corrupted_key_splits_user_key_refuted :
+  let items := [IGood (bx_e 1 5 1); IBad [1; 7; 4; 0; 0; 0; 0; 0; 0] []; IGood (bx_e 1 3 1)] in
+  (exists s', transact bytewise kp (fun _ => 100) [] 1000 [] 9 false 10 bx_size [o_ok] items (bst0 []) = (s', TDone) /\
+     out_items s' = [[IGood (bx_e 1 5 1); IBad [1; 7; 4; 0; 0; 0; 0; 0; 0] []]; [IGood (bx_e 1 3 1)]] /\
+     kerr s' = 1 /\ cuts_ok bytewise (fin s') = false) /\
+  (exists s', transact bytewise kp (fun _ => 100) [] 1000 [] 9 true 10 bx_size [o_ok] items (bst0 []) = (s', TExit) /\
+     recs s' = []).
+Proof. split; eexists; (split; [vm_compute; reflexivity|]); vm_compute; repeat split; reflexivity. Qed.
